@@ -817,11 +817,15 @@ def handoff_part(ck, cases, c08, tag="C18_handoff"):
         if case["cfg"]["dry"] and case["batch"].get("type") != "local":
             return None      # the foreground dry run would instantiate the slurm/lsf/flux adapter (C15's business; flux is absent)
         root2 = os.path.join(job["rbase"], "cli")
+        # `-o` as spelled on the command line (relative to the cwd the command is started in)
+        ospelled, cli_cwd = {"rel": ("cli", job["rbase"]), "dot": ("./cli", job["rbase"]), "slash": ("cli" + os.sep, job["rbase"]),
+                             "dotdot": (os.path.join("..", os.path.basename(job["rbase"]), "cli"), job["rbase"])}.get(
+            job["spelling"], (root2, job["dir"]))
         # --dry launches even with -n (detached); a dry run is therefore done in the foreground: the study
         # is stored before it starts, and that stored study is what the fresh process loads
         argv = (["run", "--dry", "-fg", "-y"] if case["cfg"]["dry"] else ["run", "-n"]) + \
                ["-s", 1, "--attempts", case["cfg"]["attempts"], "--throttle", case["cfg"]["throttle"],
-                "--rlimit", case["rlimit"], "-o", root2]
+                "--rlimit", case["rlimit"], "-o", ospelled]
         if case["cfg"]["hash_ws"]:
             argv.append("--hashws")
         if case["cfg"]["use_tmp"]:
@@ -829,7 +833,7 @@ def handoff_part(ck, cases, c08, tag="C18_handoff"):
         if job["pgen"]:
             argv += ["--pgen", job["pgen"]]
         argv.append(job["spec"])
-        rc, out = e2e.launch("maestro", argv, job["dir"], {"E2E_POLL_SLEEP": "1", "E2E_MAX_POLLS": "200"})
+        rc, out = e2e.launch("maestro", argv, cli_cwd, {"E2E_POLL_SLEEP": "1", "E2E_MAX_POLLS": "200"})
         if rc != 0:
             return {"ok": False, "err": 7, "exc": "maestro run -n", "msg": "rc=%d %s" % (rc, out[-500:])}
         outp = os.path.join(job["dir"], "c.json")
